@@ -123,6 +123,83 @@ fn main() {
                 }
             }
         }
+        "record-perm" | "record-abs" => {
+            // C04 / C15: groups = one generated program and its order / abstraction variants
+            let seed: u64 = m.get("seed").and_then(|s| s.parse().ok()).unwrap_or(1);
+            let n: usize = m.get("n").and_then(|s| s.parse().ok()).unwrap_or(100);
+            let cfg = cfg_of(m.get("cfg").map(|s| s.as_str()).unwrap_or("core"));
+            let out = m.get("out").expect("--out");
+            let kinds: Vec<&str> = if cmd == "record-perm" { vec!["PL", "PA", "DC", "PR", "DR"] } else { vec!["AL", "AQ", "AR", "UN", "SH", "IN"] };
+            let mut f = std::io::BufWriter::new(std::fs::File::create(out).unwrap());
+            let mut r = Rng::new(seed);
+            let mut i = 0usize;
+            for grp in 1..=n {
+                let mut rr = r.fork();
+                let (doc, prog) = {
+                    let mut g = gen::Gen { r: &mut rr, cfg: cfg.clone() };
+                    let doc = g.doc();
+                    let prog = g.program(&doc);
+                    (doc, prog)
+                };
+                let data = val::to_json_text(&doc);
+                let mut emit = |var: &str, p: &J, i: &mut usize| {
+                    let mut obs = exec::observe(&render::render_file(p), &data, false);
+                    if obs["kind"] == "ok" {
+                        let t = exec::status_tree(&obs["tree"]);
+                        obs["tree"] = t;
+                    }
+                    *i += 1;
+                    let mut line = json!({"i": *i, "grp": grp, "var": var, "prog": p, "doc": doc, "obs": obs});
+                    if var == "DR" {
+                        for r0 in p["rules"].as_array().unwrap() {
+                            let n = r0["n"].as_str().unwrap();
+                            if let Some(o) = n.strip_suffix("dup") {
+                                line["dup"] = json!(n);
+                                line["orig"] = json!(o);
+                            }
+                        }
+                    }
+                    writeln!(f, "{}", line).unwrap();
+                };
+                emit("B", &prog, &mut i);
+                for k in &kinds {
+                    let v = if cmd == "record-perm" { gv::xform::perm_variant(&prog, k, &mut rr) } else { gv::xform::abs_variant(&prog, k, &mut rr) };
+                    if let Some(p2) = v {
+                        emit(k, &p2, &mut i);
+                    }
+                }
+            }
+        }
+        "record-events" => {
+            // hook-event stream of many evaluations, flattened (TraceMemo)
+            let seed: u64 = m.get("seed").and_then(|s| s.parse().ok()).unwrap_or(1);
+            let n: usize = m.get("n").and_then(|s| s.parse().ok()).unwrap_or(100);
+            let cfg = cfg_of(m.get("cfg").map(|s| s.as_str()).unwrap_or("core"));
+            let out = m.get("out").expect("--out");
+            let mut f = std::io::BufWriter::new(std::fs::File::create(out).unwrap());
+            let mut r = Rng::new(seed);
+            let mut progs = std::io::BufWriter::new(std::fs::File::create(format!("{}.progs", out)).unwrap());
+            for i in 1..=n {
+                let mut rr = r.fork();
+                let mut g = gen::Gen { r: &mut rr, cfg: cfg.clone() };
+                let doc = g.doc();
+                let prog = g.program(&doc);
+                let rules = render::render_file(&prog);
+                let data = val::to_json_text(&doc);
+                cfn_guard::verif_hooks::enable(true);
+                let _ = cfn_guard::verif_hooks::drain();
+                let obs = exec::observe(&rules, &data, false);
+                let evs = cfn_guard::verif_hooks::drain();
+                cfn_guard::verif_hooks::enable(false);
+                writeln!(progs, "{}", json!({"i": i, "prog": prog, "doc": doc, "rules_text": rules, "data_text": data})).unwrap();
+                writeln!(f, "{}", json!({"e":"begin","i":i})).unwrap();
+                for e in evs {
+                    writeln!(f, "{}", e).unwrap();
+                }
+                let ok = obs["kind"] == "ok";
+                writeln!(f, "{}", json!({"e":"end","i":i,"ok":ok,"rules": if ok { obs["rules"].clone() } else { json!([]) }, "kind": obs["kind"]})).unwrap();
+            }
+        }
         "reobserve" => {
             // re-run one recorded line against the current implementation
             let stdin = std::io::stdin();
